@@ -63,8 +63,11 @@ def _model_file(name):
     d = os.path.join(build.CACHE, "c02")
     os.makedirs(d, exist_ok=True)
     p = os.path.join(d, name + ".xml")
-    with open(p, "w") as fh:
-        fh.write(MODELS[name])
+    if not os.path.exists(p) or open(p).read() != MODELS[name]:
+        tmp = p + ".%d.tmp" % os.getpid()
+        with open(tmp, "w") as fh:
+            fh.write(MODELS[name])
+        os.replace(tmp, p)
     return p
 
 
@@ -144,6 +147,8 @@ def _tsan(ctx):
 
 def run(ctx):
     x = exes()
+    for name in MODELS:
+        _model_file(name)
     bound = ctx.q(1, 2)
     cap = ctx.q(6000, 200000)
     jobs = []
